@@ -206,6 +206,18 @@ MUTANTS = [
      'os.O_RDWR | os.O_CREAT | getattr', ['C15']),
     ('store-status-swallowed', 'sopclass.py', "    response, _ = asce.receive()\n    return statuses.Status(response.status, dimsemessages.CStoreRSPMessage)",
      "    response, _ = asce.receive()\n    return statuses.Status(0 if response.status == 0xB000 else response.status, dimsemessages.CStoreRSPMessage)", ['C15']),
+    ('min-pdu-check-off', 'dimsemessages.py', 'if 0 < max_pdu_length < MIN_PDU_LENGTH:',
+     'if False:', ['C12']),
+    ('get-refused-rsp-on-get-ctx', 'sopclass.py', '            asce.send(rsp, pc_id)\n',
+     '            asce.send(rsp, ctx.id if int(status) == 0xC000 else pc_id)\n', ['C19']),
+    ('move-unknown-dest-connects', 'sopclass.py', '    if not nop:\n        # nothing to move',
+     '    if not nop and remote_ae:\n        # nothing to move', ['C19']),
+    ('ar6-back-to-sta6', 'fsm.py',
+     "            self.dimse_decoder = None\n        return States.STA_7",
+     "            self.dimse_decoder = None\n        return States.STA_6", ['C04', 'C14']),
+    ('aa7-silent', 'fsm.py',
+     "        self.primitive = pdu.AAbortPDU(source=2, reason_diag=0)\n        self.dul_socket.sendall(self.primitive.encode())\n        return States.STA_13",
+     "        self.primitive = pdu.AAbortPDU(source=2, reason_diag=0)\n        return States.STA_13", ['C04', 'C12']),
 ]
 
 
@@ -225,7 +237,7 @@ def main():
     ok = True
     rows = []
     for name, fn, old, new, props in MUTANTS:
-        if args.only and args.only not in name:
+        if args.only and not any(x in name for x in args.only.split(',')):
             continue
         if args.props:
             props = [p for p in props if p in args.props.split(',')]
@@ -243,6 +255,7 @@ def main():
             open(path, 'w').write(src.replace(old, new))
             env = dict(os.environ)
             env['VERIF_REPO'] = tmp
+            env['VERIF_REPLAYS'] = os.path.join(tmp, '_replays')
             env['VERIF_BUDGET_S'] = args.budget
             if args.tests:
                 shutil.copytree(os.path.join(repo, 'tests'), os.path.join(tmp, 'tests'))
@@ -265,10 +278,8 @@ def main():
                     print(out[-1500:])
         finally:
             shutil.rmtree(tmp, ignore_errors=True)
-            # replays written for mutants are not evidence about /repo
-            rep = os.path.join(VERIF, 'replays')
-            for f in os.listdir(rep) if os.path.isdir(rep) else []:
-                os.remove(os.path.join(rep, f))
+            # replays written for mutants are not evidence about /repo (private directory)
+            shutil.rmtree(env.get('VERIF_REPLAYS', '/nonexistent'), ignore_errors=True)
     print('sensitivity: %d/%d caught' % (sum(1 for r in rows if r[2]), len(rows)))
     return 0 if ok else 1
 
